@@ -319,7 +319,7 @@ def report(prop, a, checks, results, native, seed, t0):
         if v['line'] not in seen_lines:
             print(v['line'])
             seen_lines.add(v['line'])
-    for u in undecided:
+    for u in dict.fromkeys(undecided):
         print(f'UNDECIDED property={prop} {u}', file=sys.stderr)
     for c in crashes:
         print(f'CRASH property={prop} {c}', file=sys.stderr)
